@@ -8,7 +8,7 @@ statement (F<i>S<j>Action) so an observed Start/Stop event identifies its owner.
 import collections
 
 
-def gen_hierarchy(rng, max_flows=5, depth_bias=False, with_groups=True, with_when=True, alphabet=3, with_vars=False, loops=False):
+def gen_hierarchy(rng, max_flows=5, depth_bias=False, with_groups=True, with_when=True, alphabet=3, with_vars=False, loops=False, main_kids_first=False):
     n = rng.randint(2, max_flows)
     children = collections.defaultdict(list)
     for i in range(1, n + 1):
@@ -27,6 +27,8 @@ def gen_hierarchy(rng, max_flows=5, depth_bias=False, with_groups=True, with_whe
         k = rng.randint(1, 4) + len(kids)
         slots = ["kid"] * len(kids) + [rng.choice(["match", "act", "actwait", "match"]) for _ in range(k - len(kids))]
         rng.shuffle(slots)
+        if i == 0 and main_kids_first:
+            slots.sort(key=lambda x: x != "kid")
         if with_vars and rng.random() < 0.5:
             lines.append("  $v%d = %s" % (i, rng.choice(['{"a", "b"}', "[1, [2, {\"k\": [3]}]]", '{"k": {"z": 1}}', '"s%d"' % i, "%d" % i])))
         pending_group = []
